@@ -28,11 +28,12 @@ CHAR_FIELDS = {"tShift", "bMarks", "eMarks", "pos", "posMax"}
 
 
 class Prov:
-    def __init__(self, c: Ctx, f: Func) -> None:
+    def __init__(self, c: Ctx, f: Func, param_atoms: bool = False) -> None:
         self.c, self.f = c, f
         self.sc = c.tf.scope(f)
         self.rd = Reaching(c.cfg(f))
         self.params = {a.arg for a in f.node.args.posonlyargs + f.node.args.args + f.node.args.kwonlyargs}
+        self.param_atoms = param_atoms        # inside a helper: its parameters stand for already checked values
 
     def _is_source(self, e: ast.AST) -> bool:
         """e denotes a source string: <state>.src, or a str parameter of a helper, or a local bound to a source slice."""
@@ -87,6 +88,25 @@ class Prov:
                 if fn.attr in ("group",) and field in ("markup", "info"):
                     return ""
                 return f"`.{fn.attr}(...)` applied on the way from the source to the payload (`{U(e)[:50]}`): not in the allowed-transform list"
+            cs = self.c.cg.site_of.get(e)
+            if cs is not None and len(cs.callees) == 1 and cs.kind in ("direct", "method") and depth < 6 and not e.keywords:
+                # a helper of the repository: its arguments must be allowed, and every value it returns must be built from its
+                # parameters by the allowed transforms
+                g = cs.callees[0]
+                for a in e.args:
+                    if self.sc.type(a) in ("str", None):
+                        b = self.bad(a, at, field, seen, depth + 1)
+                        if b:
+                            return b
+                hp = Prov(self.c, g, param_atoms=True)
+                rets = [n for n in own_nodes(g.node) if isinstance(n, ast.Return) and n.value is not None]
+                if not rets:
+                    return f"`{U(e)[:40]}`: helper {g.short} returns nothing"
+                for rt in rets:
+                    b = hp.bad(rt.value, rt, field, frozenset(), depth + 1)
+                    if b:
+                        return f"in helper {g.short}: {b}"
+                return ""
             if isinstance(fn, ast.Name):
                 if fn.id == "int" and field == "attrs.start" and len(e.args) == 1:
                     return self.bad(e.args[0], at, field, seen, depth + 1)
@@ -102,6 +122,8 @@ class Prov:
                 return f"`{e.id}`: no reaching definition found"
             for d in ds:
                 if d.kind == "param":
+                    if self.param_atoms:
+                        continue
                     return f"`{e.id}` is a parameter: its provenance is not visible here"
                 if d.kind == "aug":
                     v = d.value
@@ -303,17 +325,19 @@ def rule_ublank(c: Ctx) -> RuleResult:
                 r.add(key, c.where(f, call), f.short, U(call)[:80], "discharged", "explicit character argument: only those characters count as blank")
     # PAD
     bt = c.p.func("rules_inline/backticks.py:backtick")
-    cfg, res = c.facts(bt)
+    pad_funcs = [bt] + [g for cs in c.cg.sites.get(bt, []) for g in cs.callees if g.module is bt.module and cs.kind == "direct"]
     pads = []
-    for s in own_nodes(bt.node):
-        if isinstance(s, ast.Assign) and len(s.targets) == 1 and isinstance(s.targets[0], ast.Attribute) and s.targets[0].attr == "content" \
-                and isinstance(s.value, ast.Subscript) and isinstance(s.value.slice, ast.Slice) and U(s.value.slice) == "1:-1":
-            pads.append(s)
-    for s in pads:
+    for pf in pad_funcs:
+        for s_ in own_nodes(pf.node):
+            if isinstance(s_, ast.Subscript) and isinstance(s_.slice, ast.Slice) and U(s_.slice) == "1:-1" and isinstance(s_.ctx, ast.Load) \
+                    and c.tf.scope(pf).type(s_.value) in ("str", None):
+                pads.append((pf, s_))
+    for (pf, s_) in pads:
         n += 1
-        recv = U(s.value.value)           # type: ignore[attr-defined]
+        cfg, res = c.facts(pf)
+        recv = U(s_.value)
         need = {"starts": False, "ends": False, "nonblank": False}
-        for cn in cfg.owner(s):
+        for cn in cfg.owner(s_):
             z = res.get(cn.id)
             if z is None:
                 continue
@@ -327,7 +351,8 @@ def rule_ublank(c: Ctx) -> RuleResult:
                 if recv in txt and (".strip(' ')" in txt or ".replace(' ', '')" in txt or "' ' * len(" in txt or "!= ' '" in txt):
                     need["nonblank"] = True
         miss = [k for k, v in need.items() if not v]
-        r.add(f"{bt.short}|PAD", c.where(bt, s), bt.short, U(s), "discharged" if not miss else "violation",
+        stmt_ = pf.module.parents.get(s_, s_)
+        r.add(f"{pf.short}|PAD", c.where(pf, s_), pf.short, U(stmt_)[:80], "discharged" if not miss else "violation",
               "padding strip dominated by startswith(' '), endswith(' ') and a not-all-spaces test" if not miss else
               "the one-space padding is stripped without " + ", ".join({"starts": "a leading-space test", "ends": "a trailing-space test",
                                                                       "nonblank": "an explicit not-all-*spaces* test (strip(' ') / != ' ' * n)"}[m] for m in miss)
